@@ -140,6 +140,8 @@ fn vec_leaf() -> BoxedStrategy<Leaf> {
     let bad = prop::sample::select(vec![
         "INT[1,x]", "INT[1.5]", "INT[1,,2]", "INT[2147483648]", "INT[,1]", "INT[1,]", "INT[a]", "BOOL[2]", "BOOL[1,TRUE]", "BOOL[yes]", "BOOL[1,,0]",
         "FLOAT[1,x]", "FLOAT[1.5,]", "FLOAT[abc]", "FLOAT[1;2]", "INT[1]]", "INT[[1]", "BOOL[é]", "INT[∑]", "FLOAT[1,é]",
+        // not closed by ']': malformed as well (dropped, never turned into another kind of item)
+        "FLOAT[1.5,2.5", "INT[1,2", "BOOL[1", "INT[", "FLOAT[", "BOOL[", "INT[1,2x", "FLOAT[3.0,x", "BOOL[1,0)", "INT[7é",
     ])
     .prop_map(|s| Leaf { text: s.to_string(), expect: None, class: "malformed-vector" });
     prop_oneof![2 => good_int, 2 => good_float, 2 => good_bool, 3 => bad].boxed()
@@ -311,11 +313,29 @@ pub fn run(ctx: &Ctx) -> PropReport {
         "(T) arbitrary strings (any::<String>, token soup over parens / vector prefixes / multi-byte scalars / instruction names, printed programs with one token or character deleted, duplicated, transposed or truncated) parsed onto empty and non-empty states; (S) token trees whose leaves are generated by lexical class and rendered with random whitespace; non-trivial = (T) text contains a paren or a vector prefix, (S) >= 1 list and >= 3 leaf classes; distinct = hash of the text",
         "(T) INV: parse returns, every component except EXEC is unchanged, old EXEC items stay on top in order. (S) REF: the EXEC stack read back through the public API equals the expected tree: top-level tokens first-on-top, same nesting, leaves of the expected kind and value, malformed vector literals contribute nothing and do not disturb their neighbours.",
     );
-    rep.assumptions.push("unspecified, generated in (T) only: empty vector literals INT[] FLOAT[] BOOL[], prefix tokens not ending in ']', the tree built from unbalanced input".into());
+    rep.assumptions.push("unspecified, generated in (T) only: empty vector literals INT[] FLOAT[] BOOL[] and the tree built from unbalanced input; prefix tokens that are not closed by ']' are malformed literals and must be dropped".into());
     rep.assumptions.push("nesting depth <= 8 (quick) / 64 (thorough) in the generators; the deep-nesting probe is separate".into());
     let d = ctx.tier.pick(4u32, 8u32);
     rep.push(run_sharded(ctx, "totality", ctx.tier.pick(200_000, 3_000_000), move || total_strategy(d), |(s, t): &(StateSpec, String)| judge_total(s, t), |(s, t)| json!({"text": t, "state": s.to_json()})));
     rep.push(run_sharded(ctx, "structure", ctx.tier.pick(60_000, 1_000_000), move || struct_strategy(d, ctx_size(d)), judge_struct, |c| json!({"text": c.text(), "expected": c.toks.iter().filter_map(|t| t.expected()).map(|x| x.to_json()).collect::<Vec<_>>()})));
+    if ctx.tier == Tier::Thorough {
+        rep.push(crate::fuzzrun::campaign(ctx, "C03", "parse_text", 4_000_000, 256));
+    }
+    // deep nesting: moderate depths must work; the depth at which the native stack overflows is a
+    // listed known finding (probe)
+    let mut deep = SubReport::new("deep-nesting");
+    for depth in [300usize, 1000, 3000] {
+        deep.evaluations += 1;
+        match deep_nesting_aborts(depth) {
+            Some(false) => {
+                deep.nontrivial.insert(depth as u64);
+            }
+            Some(true) => deep.fail(ctx, Fail::new("C03/deep-nesting/abort", format!("parsing + printing + dropping a program nested {} levels deep aborts the process", depth)), json!({"kind": "c03-deep", "depth": depth})),
+            None => deep.inconclusive.push("cannot run the deep-nesting probe".into()),
+        }
+    }
+    deep.sample(json!({"kind": "c03-deep", "depth": 3000}));
+    rep.push(deep);
     rep
 }
 fn ctx_size(d: u32) -> u32 {
@@ -335,4 +355,55 @@ pub fn replay(_ctx: &Ctx, sub: &str, case: &Value) -> Result<(), Fail> {
     }
     let s = case.get("state").and_then(StateSpec::from_json).unwrap_or_default();
     judge_total(&s, text).map(|_| ())
+}
+
+// ---------------------------------------------------------------------------------------------
+// deep nesting (K4): parse + print + drop of a program nested `depth` levels deep, executed in a
+// fresh child process on its main thread (default stack); an abort there is a C03/C01 violation.
+
+pub fn deep_text(depth: usize) -> String {
+    let mut t = String::with_capacity(depth * 4 + 8);
+    for _ in 0..depth {
+        t.push_str("( ");
+    }
+    t.push_str("1 ");
+    for _ in 0..depth {
+        t.push_str(") ");
+    }
+    t
+}
+/// crash-only execution (called in the child through --exec-journal)
+pub fn exec_deep(v: &Value) -> Result<(), String> {
+    let depth = v.get("depth").and_then(|x| x.as_u64()).unwrap_or(1000) as usize;
+    let text = deep_text(depth);
+    let r = guarded(|| {
+        let mut st = pushr::push::state::PushState::new();
+        with_machine(|m| PushParser::parse_program(&mut st, &m.iset, &text));
+        let stage = v.get("stage").and_then(|x| x.as_str()).unwrap_or("all");
+        if stage == "parse-only" {
+            // leak the state: neither printed nor dropped
+            std::mem::forget(st);
+            return 0;
+        }
+        let printed = st.exec_stack.to_string();
+        let n = printed.len();
+        drop(st);
+        n
+    });
+    r.map(|_| ()).map_err(|(l, m)| format!("panic at {}: {}", l, m))
+}
+/// Some(true): the child aborts (stack overflow) at this depth
+pub fn deep_nesting_aborts(depth: usize) -> Option<bool> {
+    let dir = crate::supervise::work_dir();
+    let path = format!("{}/c03-deep-{}.json", dir, std::process::id());
+    std::fs::write(&path, serde_json::to_string(&json!({"kind": "c03-deep", "depth": depth})).ok()?).ok()?;
+    let o = crate::supervise::run_child_public(&["C03".to_string(), "--exec-journal".to_string(), path.clone()], 120);
+    let _ = std::fs::remove_file(&path);
+    Some(o.signal.is_some())
+}
+pub fn probe_known(key: &str) -> Option<bool> {
+    if key == "C03/deep-nesting/abort" {
+        return deep_nesting_aborts(19_000);
+    }
+    None
 }
